@@ -119,4 +119,5 @@ package tm
 //@   ensures decision-after-business: called("commitOrRollback#1") ==> ghost.biz_calls == 1
 //@   ensures surface: result == nil ==> ghost.biz_calls == 1 && ghost.biz_err_nil && !ghost.biz_panicked && (called("commitOrRollback#1") ==> callres("commitOrRollback#1", 0) == nil)
 //@   ensures business-once: ghost.biz_calls <= 1
+//@   ensures begin-failure-surfaces: called("begin#1") && callres("begin#1", 0) != nil ==> result != nil && ghost.biz_calls == 0 && !called("commitOrRollback#1")
 //@   ensures_on_panic no-panic-escapes: false
